@@ -164,6 +164,7 @@ ProgResponseOK(p, i) ==
     /\ Len(Line.hdrs) = Len(p.hdrs)
     /\ (Line.cl >= 0 /\ ~nb) => Line.cl = Line.bodyLen                      \* Content-Length matches the bytes sent
     /\ nb => Line.bodyLen = 0
+    /\ (p.body.kind = "none" /\ p.body.declared > 0) => Line.cl = p.body.declared     \* the declared length of a HEAD answer is kept
     /\ ((p.status >= 100 /\ p.status <= 199) \/ p.status = 204) => ~Line.chunked
 
 \* the handler's response: the echo handler answers 200 with the sequence number of the request; a handler that
